@@ -21,12 +21,16 @@ Proof.
   apply PositiveMap.elements_correct. exact F.
 Qed.
 
-Lemma ord_norm c m s lb ord : step_ret_m c m s (lb, ord) = step_ret_m c m s (lb, N.min ord 5).
-Proof. unfold step_ret_m. replace (N.min (N.min ord 5) 5) with (N.min ord 5) by lia. reflexivity. Qed.
+Lemma eff_ord_idem s ord : eff_ord s (eff_ord s ord) = eff_ord s ord.
+Proof. unfold eff_ord. destruct (ambiguous s); [lia | reflexivity]. Qed.
 
-Lemma min5_in ord : In (N.min ord 5) all_ords.
+Lemma ord_norm c m s lb ord : step_ret_m c m s (lb, ord) = step_ret_m c m s (lb, eff_ord s ord).
+Proof. unfold step_ret_m. rewrite eff_ord_idem. reflexivity. Qed.
+
+Lemma eff_ord_in s ord : In (eff_ord s ord) (orders s).
 Proof.
-  unfold all_ords. destruct (N.le_gt_cases 5 ord) as [H|H].
+  unfold eff_ord, orders. destruct (ambiguous s); [|simpl; tauto].
+  destruct (N.le_gt_cases 5 ord) as [H|H].
   - rewrite N.min_r by exact H. simpl; tauto.
   - rewrite N.min_l by lia.
     assert (ord = 0 \/ ord = 1 \/ ord = 2 \/ ord = 3 \/ ord = 4) as [->|[->|[->|[->| ->]]]] by lia; simpl; tauto.
@@ -36,7 +40,7 @@ Lemma step_in_succs m s l : In (fst (step_ret_m cfg_now m s l)) (succs s).
 Proof.
   destruct l as [lb ord]. rewrite ord_norm. unfold succs.
   apply in_flat_map. exists lb. split; [apply all_labs_complete|].
-  apply in_flat_map. exists (N.min ord 5). split; [apply min5_in|].
+  apply in_flat_map. exists (eff_ord s ord). split; [apply eff_ord_in|].
   destruct m; [left | right; left]; reflexivity.
 Qed.
 
@@ -70,13 +74,13 @@ Proof. intros H n ls. rewrite forallb_forall in H. apply H. apply reach_in_V. Qe
 (* the same for one more step from a reachable state (properties of a step's notifications) *)
 Lemma V_forall_step (P : state -> lab -> state -> bool) :
   forallb (fun s => forallb (fun lb => forallb (fun ord => forallb (fun m =>
-     P s lb (fst (step_ret_m cfg_now m s (lb, ord)))) [true; false]) all_ords) all_labs) V_elems = true ->
+     P s lb (fst (step_ret_m cfg_now m s (lb, ord)))) [true; false]) (orders s)) all_labs) V_elems = true ->
   forall n ls l, P (fst (run cfg_now n ls)) (fst l) (fst (step cfg_now n (run cfg_now n ls) l)) = true.
 Proof.
   intros H n ls [lb ord]. rewrite fstep_fst. rewrite ord_norm.
   rewrite forallb_forall in H. specialize (H _ (reach_in_V n ls)).
   rewrite forallb_forall in H. specialize (H lb (all_labs_complete lb)).
-  rewrite forallb_forall in H. specialize (H _ (min5_in ord)).
+  rewrite forallb_forall in H. specialize (H _ (eff_ord_in _ ord)).
   rewrite forallb_forall in H. cbn [fst].
   apply H. destruct (pos_after _ _ _ <? n); [left | right; left]; reflexivity.
 Qed.
@@ -160,7 +164,7 @@ Proof. vm_compute. reflexivity. Qed.
 Lemma nostuck_V : forallb p_nostuck V_elems = true.
 Proof. vm_compute. reflexivity. Qed.
 Lemma step_V : forallb (fun s => forallb (fun lb => forallb (fun ord => forallb (fun m =>
-     p_step s lb (fst (step_ret_m cfg_now m s (lb, ord)))) [true; false]) all_ords) all_labs) V_elems = true.
+     p_step s lb (fst (step_ret_m cfg_now m s (lb, ord)))) [true; false]) (orders s)) all_labs) V_elems = true.
 Proof. vm_compute. reflexivity. Qed.
 
 Theorem c05_safety n ls : p_safety (fst (run cfg_now n ls)) = true.
